@@ -215,6 +215,13 @@ func (self *BinaryConv) doRecurse(ctx context.Context, s string, jp int, desc *t
 						}
 						p.WriteInt(kt.Type(), int(i))
 
+					} else if kt.Type() == thrift.DOUBLE {
+						f, err := strconv.ParseFloat(key, 64)
+						if err != nil {
+							return ret, err
+						}
+						p.WriteDouble(f)
+
 					} else {
 						return ret, newError(meta.ErrUnsupportedType, "thrift MAP key type must be STRING", nil)
 					}
